@@ -1,6 +1,6 @@
 (* Property C17: kicks are routed to the owning worker with the ring's rank
    as event id.  Statements only. *)
-From VV Require Import Base.Bits Base.Rt Base.Val Model.Daemon Spec.DaemonSpec Proofs.DaemonProofs.
+From VV Require Import Base.Bits Base.Rt Base.Val Gen.GenRoute Model.Daemon Spec.DaemonSpec Proofs.DaemonProofs.
 Open Scope N_scope.
 
 (* the event id computed by the daemon (popcount(mask) - popcount(mask >> q)) is the number of
@@ -9,8 +9,37 @@ Theorem C17_rank : forall m q, popcount m - popcount (N.shiftr m q) = popcount (
 Proof. exact rank_formula. Qed.
 Print Assumptions C17_rank.
 
-(* the owner is the first worker whose mask contains the queue, with that rank: the model's
-   computation (transcribed from update_vring_registration) equals the specification's *)
+(* the expressions of update_vring_registration REGENERATED from handler.rs on this run (Gen.GenRoute): the membership
+   test is bit q of the worker's mask, the event id is the rank, the source's subtraction cannot underflow,
+   unregistration computes the same worker and id, and the code around them is one in-order loop that stops at the
+   first hit and hands the id to the hit worker's own handler *)
+Theorem C17_regenerated_membership : forall m q, route_hit (route_shift m q) = N.testbit m q.
+Proof. exact route_hit_testbit. Qed.
+Print Assumptions C17_regenerated_membership.
+Theorem C17_regenerated_event_id : forall m q, route_evt m (route_shift m q) = popcount (m mod 2 ^ q).
+Proof. exact route_evt_rank. Qed.
+Print Assumptions C17_regenerated_event_id.
+Theorem C17_event_id_no_underflow : forall m q, popcount (route_shift m q) <= popcount m.
+Proof. exact route_evt_no_underflow. Qed.
+Print Assumptions C17_event_id_no_underflow.
+Theorem C17_unregistration_agrees : forall m q,
+  unroute_shift m q = route_shift m q /\ unroute_hit (unroute_shift m q) = route_hit (route_shift m q)
+  /\ unroute_evt m (unroute_shift m q) = route_evt m (route_shift m q).
+Proof. exact unroute_same. Qed.
+Print Assumptions C17_unregistration_agrees.
+Theorem C17_routing_code_shape : route_shape_ok = true.
+Proof. exact route_shape_ok_true. Qed.
+Print Assumptions C17_routing_code_shape.
+(* the slice a worker is given by VhostUserHandler::new (regenerated membership test) holds queue q at q's event id *)
+Theorem C17_slice_at_event_id : forall m nq q,
+  (q < nq)%nat -> route_hit (route_shift m (N.of_nat q)) = true ->
+  nth_error (filter (fun x => route_member m x) (map N.of_nat (seq 0 nq)))
+            (N.to_nat (route_evt m (route_shift m (N.of_nat q)))) = Some (N.of_nat q).
+Proof. exact slice_at_event_id. Qed.
+Print Assumptions C17_slice_at_event_id.
+
+(* the owner is the first worker whose mask contains the queue, with that rank: the model's loop over the regenerated
+   expressions equals the specification's *)
 Theorem C17_single_owner : forall masks q t,
   owner_of masks q t = match spec_owner masks q (N.of_nat t) with
                        | Some (w, r) => Some (N.to_nat w, r)
